@@ -67,7 +67,21 @@ def run(tier, seed):
         raise vlib.ToolError("self-test: pre-fix variant of Stark.tla not refuted (%s)" % rb.violation)
     if tier == "quick":
         stmts = [s for s in stmts if s["t"]["width"] <= 64 or s["t"]["ln"] <= 4]
-    scs = [starkgen.scenario(t, i, seed) for i, t in enumerate(stmts)]
+    # statements with a sequence assertion of 64 and more values (the prover's pre-computed representation) at zero and
+    # non-zero first step, with an LDE blowup above the constraint-evaluation blowup: derived from generated statements by
+    # raising the trace length (admissibility is unaffected: same options, longer trace, schedule stays well-formed)
+    large = []
+    for s in [x for x in stmts if x["t"]["width"] >= 4 and x["t"]["ln"] >= 5 and x["t"]["lb"] >= 2 and max(x["t"]["degs"]) <= 3
+              and x["t"]["fold"] <= 8 and x["t"]["rem"] <= 31][:4 if tier == "quick" else 16]:
+        for ln, first in ((7, 1), (7, 0), (8, 3)) if tier == "thorough" else ((7, 1), (7, 0)):
+            t = dict(s["t"], ln=ln, nasserts=5)
+            n, w = 2 ** ln, t["width"]
+            a = starkgen.assertions(n, w, 5)
+            a[2] = dict(kind="periodic", col=0, first=1, stride=4, count=1)
+            a[3] = dict(kind="sequence", col=1, first=first, stride=4 if first == 3 else 2, count=n // (4 if first == 3 else 2))
+            a[4] = dict(kind="single", col=3, first=5, stride=0, count=1)
+            large.append(dict(s, t=t, asserts=a, ccols=0, layers=0))
+    scs = [starkgen.scenario(t, i, seed) for i, t in enumerate(stmts + large)]
     obs = run_scenarios(exe, "complete", scs, wd, "complete_dbg")
     ok = sum(1 for sc, o in zip(scs, obs) if judge_complete(v, sc, o, "dbg"))
     log("[replay] %d statements proved+verified+round-tripped in the debug build, %d ok" % (len(scs), ok))
